@@ -189,7 +189,7 @@ def _sort(s, it):
 
 
 class Loop:
-    def __init__(self, invariant=(), decreases=None, modifies=None, ghost_step=None, unroll=None, forget=False, entry_asserts=(), cut_vars=()):
+    def __init__(self, invariant=(), decreases=None, modifies=None, ghost_step=None, unroll=None, forget=False, entry_asserts=(), cut_vars=(), instances=()):
         self.invariant = [invariant] if isinstance(invariant, str) else list(invariant)
         self.decreases = decreases
         self.modifies = modifies
@@ -201,6 +201,9 @@ class Loop:
         self.forget = forget
         self.entry_asserts = list(entry_asserts)
         self.cut_vars = list(cut_vars)
+        # invariants stated over a free (skolem) constant are universally quantified: ``instances`` are further instantiations
+        # of the same invariant (e.g. at the key this iteration touches), assumed at the loop head only
+        self.instances = list(instances)
 
 
 class Contract:
@@ -240,6 +243,7 @@ class Contract:
         prefer=None,
         timeout_ms=None,
         witness_inputs=None,
+        local_models=None,
     ):
         self.id = cid
         self.target = target
@@ -272,6 +276,7 @@ class Contract:
         self.prune_timeout_ms = prune_timeout_ms
         self.tier = tier  # 'thorough': only explored in the thorough tier
         self.prefer = prefer  # solver tried first for this contract's obligations
+        self.local_models = dict(local_models or {})  # local name -> factory(it): abstraction of a container that starts empty
         self.witness_inputs = witness_inputs  # candidate input valuations tried when the solver answers unknown
         self.timeout_ms = timeout_ms  # per-obligation solver budget (lower bound) for this contract
 
